@@ -21,6 +21,13 @@ struct Result {
 static int g_pipe = -1;
 static std::string* g_childLabels = nullptr;
 
+// tools/coverage.py builds with -DVERIF_COVERAGE: children leave through _exit(), which skips the profile runtime's atexit writer
+#ifdef VERIF_COVERAGE
+extern "C" int __llvm_profile_write_file(void);
+inline void covFlush() { __llvm_profile_write_file(); }
+#else
+inline void covFlush() {}
+#endif
 inline void childWrite(const std::string& s) { size_t o = 0; while (o < s.size()) { ssize_t k = write(g_pipe, s.data() + o, s.size() - o); if (k <= 0) break; o += (size_t)k; } }
 inline void childLabel(const char* l) { if (g_childLabels) { pbt::LedgerPause lp; *g_childLabels += "L "; *g_childLabels += l; *g_childLabels += "\n"; } }
 inline void childFail(const char* kind, const char* detail) {
@@ -39,6 +46,7 @@ inline void onVerdict(vsched::Verdict v, const char* detail) {
     const vsched::Stats& st = vsched::stats();
     char b[256]; snprintf(b, sizeof b, "L quiescent_end\nS %ld %ld %ld %ld %ld %ld %ld %ld\nO\n", st.decisions, st.switches, st.spurious, st.timeoutsFired, st.eintr, st.maxThreads, st.preemptions, st.interleavedShared);
     childWrite((g_childLabels ? *g_childLabels : std::string()) + b);
+    covFlush();
     _exit(0);
   }
   if (v == vsched::V_DEADLOCK) childFail("deadlock", detail);
@@ -53,6 +61,7 @@ inline void onVerdict(vsched::Verdict v, const char* detail) {
   const vsched::Stats& st = vsched::stats();
   char b[256]; snprintf(b, sizeof b, "S %ld %ld %ld %ld %ld %ld %ld %ld\nO\n", st.decisions, st.switches, st.spurious, st.timeoutsFired, st.eintr, st.maxThreads, st.preemptions, st.interleavedShared);
   childWrite((g_childLabels ? *g_childLabels : std::string()) + b);
+  covFlush();
   _exit(0);
 }
 
@@ -82,6 +91,7 @@ inline Result runForked(const vsched::Config& cfg, const std::function<void()>& 
     const vsched::Stats& st = vsched::stats();
     char b[256]; snprintf(b, sizeof b, "S %ld %ld %ld %ld %ld %ld %ld %ld\nO\n", st.decisions, st.switches, st.spurious, st.timeoutsFired, st.eintr, st.maxThreads, st.preemptions, st.interleavedShared);
     childWrite(labels + b);
+    covFlush();
     _exit(0);
   }
   close(fds[1]);
